@@ -1,1 +1,386 @@
-/-! # C09 — property theorems (stub) -/
+import Okane.Lemmas.Price
+/-!
+# C09 — commodity conversion uses the right price
+
+All statements are about `Okane.Price` (the model of `core/src/report/price_db.rs`) and hold **for every pop
+choice `cfg.pick`, every neighbour order `cfg.ord` and every fuel** unless a hypothesis says otherwise.
+`out := edgesAt cfg.ord repo D` lists, per commodity, one step per stored neighbour that has a record dated on or
+before `D`, carrying that pair's as-of record (`C09_step_is_asof`).  Chains start at the target commodity `T`
+(where `compute_price_table` starts) and end at the commodity being converted; `chainDist` accumulates
+`Distance::extend`, `chainRate` multiplies the rates.
+-/
+namespace Okane.Price
+variable {κ : Type} [DecidableEq κ]
+
+/-- a neighbour order is valid when it visits exactly the stored neighbours (any permutation is; so is the
+sorted order the Rust uses since b2e85da). -/
+def OrdValid (ord : κ → List (κ × PEntry) → List (κ × PEntry)) : Prop := ∀ p l x, x ∈ ord p l ↔ x ∈ l
+
+/-! ## identity -/
+
+/-- A into A is the identity, whatever the repository holds. -/
+theorem C09_identity (cfg : Cfg κ) (repo : Builder κ) (v : SingleAmount κ) (D : Date) :
+    convertSingle cfg repo v v.commodity D = .ok v := by
+  simp [convertSingle]
+
+/-! ## as-of selection -/
+
+/-- every record vector of a built repository is sorted by `(date, rate)`. -/
+theorem C09_build_sorted (b : Builder κ) (w o : κ) : Sorted (entryOf (build b) w o).recs := by
+  rw [entryOf_build]; exact isortBy_sorted _
+
+/-- On a sorted record vector the lookup returns a stored record dated on or before `D`, no stored record dated
+on or before `D` is more recent (or, on the same day, has a larger rate), and it fails exactly when every record
+is dated after `D`. -/
+theorem C09_asof (recs : List (Date × Rat)) (D : Date) (hs : Sorted recs) :
+    (∀ d r, asOf recs D = some (d, r) →
+        (d, r) ∈ recs ∧ d ≤ D ∧ ∀ d' r', (d', r') ∈ recs → d' ≤ D → d' ≤ d ∧ recLe (d', r') (d, r) = true) ∧
+    (asOf recs D = none ↔ ∀ d' r', (d', r') ∈ recs → ¬ d' ≤ D) := by
+  rw [asOf_sorted recs D hs]
+  have hsf : (recs.filter fun r => decide (r.1 ≤ D)).Pairwise (fun a b => recLe a b = true) := List.Pairwise.filter _ hs
+  constructor
+  · intro d r h
+    obtain ⟨hmem, hall⟩ := pairwise_getLast hsf h
+    rw [List.mem_filter] at hmem
+    refine ⟨hmem.1, by simpa using hmem.2, ?_⟩
+    intro d' r' hm hd
+    have : (d', r') ∈ recs.filter fun r => decide (r.1 ≤ D) := List.mem_filter.2 ⟨hm, by simpa using hd⟩
+    rcases hall _ this with heq | hle
+    · have h1 : recLe (d', r') (d, r) = true := by rw [heq]; exact recLe_refl _
+      exact ⟨recLe_date_pair h1, h1⟩
+    · exact ⟨recLe_date_pair hle, hle⟩
+  · rw [List.getLast?_eq_none_iff, List.filter_eq_nil_iff]
+    constructor
+    · intro h d' r' hm; simpa using h (d', r') hm
+    · intro h a ha; simpa using h a.1 a.2 ha
+
+/-- Records dated after `D` are never read: the lookup gives the same answer when they are all removed. -/
+theorem C09_asof_filter (recs : List (Date × Rat)) (D : Date) (hs : Sorted recs) :
+    asOf recs D = asOf (recs.filter fun r => decide (r.1 ≤ D)) D := by
+  have hsf : Sorted (recs.filter fun r => decide (r.1 ≤ D)) := List.Pairwise.filter _ hs
+  rw [asOf_sorted recs D hs, asOf_sorted _ D hsf, List.filter_filter]
+  simp
+
+/-- every step the table computation can take out of `p` carries the as-of record of a stored ordered pair,
+that pair's source, and the staleness `D - record date`. -/
+theorem C09_step_is_asof (ord : κ → List (κ × PEntry) → List (κ × PEntry)) (repo : Builder κ) (D : Date) (p : κ)
+    (e : Edge κ) :
+    e ∈ edgesAt ord repo D p ↔
+      ∃ inner entry d, AMap.get? repo p = some inner ∧ (e.to, entry) ∈ ord p inner ∧
+        asOf entry.recs D = some (d, e.rate) ∧ e.source = entry.source ∧ e.stale = D.dayNumber - d.dayNumber :=
+  mem_edgesAt ord repo D p e
+
+/-! ## both directions, reciprocal rates -/
+
+/-- `insert_price src {d, x X, y Y}` (non-zero amounts, X ≠ Y) appends `(d, y/x)` to `records[Y][X]` and
+`(d, x/y)` to `records[X][Y]`; the two rates are reciprocal. -/
+theorem C09_reciprocal (b b' : Builder κ) (src : Source) (ev : PriceEvent κ)
+    (hx : ev.x.value ≠ 0) (hy : ev.y.value ≠ 0) (hne : ev.x.commodity ≠ ev.y.commodity)
+    (h : insertPrice b src ev = .ok b') :
+    (entryOf b' ev.y.commodity ev.x.commodity).recs.getLast? = some (ev.date, ev.y.value / ev.x.value) ∧
+    (entryOf b' ev.x.commodity ev.y.commodity).recs.getLast? = some (ev.date, ev.x.value / ev.y.value) ∧
+    (ev.y.value / ev.x.value) * (ev.x.value / ev.y.value) = 1 := by
+  have hz : ¬ (ev.x.value = 0 ∨ ev.y.value = 0) := by simp [hx, hy]
+  refine ⟨?_, ?_, ?_⟩
+  · rw [entryOf_insertPrice h]
+    simp [contrib1, hz, hne, Ne.symm hne, bump]
+  · rw [entryOf_insertPrice h]
+    simp [contrib1, hz, hne, Ne.symm hne, bump]
+  · grind
+
+/-! ## source priority -/
+
+/-- `process` inserts the ledger's events first, then the price-db lines.  Afterwards an ordered pair holds:
+exactly the price-db records for it if there is any, else exactly the ledger records; and the source says which. -/
+theorem C09_priority (ledgerEvents dbEvents : List (PriceEvent κ)) (b : Builder κ)
+    (h : buildFrom ledgerEvents dbEvents = .ok b) (w o : κ) :
+    entryOf b w o =
+      if contrib dbEvents w o = [] then ⟨.ledger, contrib ledgerEvents w o⟩ else ⟨.priceDB, contrib dbEvents w o⟩ := by
+  unfold buildFrom at h
+  cases h1 : insertAll .ledger ([] : Builder κ) ledgerEvents with
+  | ok b1 =>
+    simp only [h1] at h
+    rw [entryOf_insertAll _ _ _ _ h w o, entryOf_insertAll _ _ _ _ h1 w o, entryOf_nil]
+    by_cases hd : contrib dbEvents w o = []
+    · by_cases hl : contrib ledgerEvents w o = []
+      · simp [bump, hd, hl]
+      · simp [bump, hd, hl, Source.rank]
+    · by_cases hl : contrib ledgerEvents w o = []
+      · simp [bump, hd, hl, Source.rank]
+      · simp [bump, hd, hl, Source.rank]
+  | err e => simp [h1] at h
+  | panic s => simp [h1] at h
+  | fuelOut => simp [h1] at h
+
+/-- … and the repository used by queries holds those records sorted. -/
+theorem C09_priority_built (ledgerEvents dbEvents : List (PriceEvent κ)) (b : Builder κ)
+    (h : buildFrom ledgerEvents dbEvents = .ok b) (w o : κ) :
+    entryOf (build b) w o =
+      if contrib dbEvents w o = [] then ⟨.ledger, isortBy recLe (contrib ledgerEvents w o)⟩
+      else ⟨.priceDB, isortBy recLe (contrib dbEvents w o)⟩ := by
+  rw [entryOf_build, C09_priority ledgerEvents dbEvents b h w o]
+  split <;> rfl
+
+/-- building never panics: `insert_price` guards the division (fix F4). -/
+theorem C09_insert_no_panic (ledgerEvents dbEvents : List (PriceEvent κ)) :
+    ∃ b, buildFrom ledgerEvents dbEvents = .ok b := by
+  obtain ⟨b1, h1⟩ := insertAll_ok .ledger ledgerEvents ([] : Builder κ)
+  obtain ⟨b2, h2⟩ := insertAll_ok .priceDB dbEvents b1
+  exact ⟨b2, by simp [buildFrom, h1, h2]⟩
+
+/-! ## the table: soundness and optimality -/
+
+theorem table_inv {cfg : Cfg κ} {repo : Builder κ} {T : κ} {D : Date} {tbl : Table κ}
+    (h : priceTable cfg repo T D = .ok tbl) : Inv (edgesAt cfg.ord repo D) T tbl [] none :=
+  loop_inv cfg.pick cfg.fuel [] _ tbl init_inv h
+
+/-- Every table entry is realised by a chain of as-of steps from the target with exactly that distance and that
+rate product. -/
+theorem C09_sound (cfg : Cfg κ) (repo : Builder κ) (T : κ) (D : Date) (tbl : Table κ)
+    (h : priceTable cfg repo T D = .ok tbl) (A : κ) (d : Dist) (r : Rat) (hA : AMap.get? tbl A = some (d, r)) :
+    ∃ es, IsChain (edgesAt cfg.ord repo D) T es A ∧ chainDist Dist.zero es = d ∧ chainRate 1 es = r :=
+  ((table_inv h).walkT A d r hA).toChain
+
+/-- At termination, for every commodity other than the target: the tabled distance is at most the distance of
+**every** chain of as-of steps reaching it (so, with `C09_sound`, it is the minimum, attained), and the commodity
+is absent from the table exactly when no chain reaches it.  For every pop order and neighbour order. -/
+theorem C09_optimal (cfg : Cfg κ) (repo : Builder κ) (T : κ) (D : Date) (tbl : Table κ)
+    (h : priceTable cfg repo T D = .ok tbl) (A : κ) (hA : A ≠ T) :
+    (∀ es, IsChain (edgesAt cfg.ord repo D) T es A →
+        ∃ d r, AMap.get? tbl A = some (d, r) ∧ d ≤ chainDist Dist.zero es) ∧
+    (AMap.get? tbl A = none ↔ ¬ ∃ es, IsChain (edgesAt cfg.ord repo D) T es A) := by
+  have hinv := table_inv h
+  have hlb : ∀ es, IsChain (edgesAt cfg.ord repo D) T es A →
+      ∃ d r, AMap.get? tbl A = some (d, r) ∧ d ≤ chainDist Dist.zero es := by
+    intro es hc
+    have hw := Walk.ofChain es T Dist.zero 1 A Walk.nil hc
+    rcases final_lower_bound hinv A _ _ hw with ⟨hAT, _⟩ | hex
+    · exact absurd hAT hA
+    · exact hex
+  refine ⟨hlb, ?_⟩
+  constructor
+  · rintro hnone ⟨es, hc⟩
+    obtain ⟨d, r, hg, _⟩ := hlb es hc
+    rw [hnone] at hg; cases hg
+  · intro hno
+    cases hg : AMap.get? tbl A with
+    | none => rfl
+    | some v =>
+      obtain ⟨d, r⟩ := v
+      obtain ⟨es, hc, _, _⟩ := C09_sound cfg repo T D tbl h A d r hg
+      exact absurd ⟨es, hc⟩ hno
+
+/-- the tabled distance is the least distance of a chain, and the tabled rate is the rate product of a chain
+attaining it. -/
+theorem C09_best (cfg : Cfg κ) (repo : Builder κ) (T : κ) (D : Date) (tbl : Table κ)
+    (h : priceTable cfg repo T D = .ok tbl) (A : κ) (hA : A ≠ T) (d : Dist) (r : Rat)
+    (hg : AMap.get? tbl A = some (d, r)) :
+    (∃ es, IsChain (edgesAt cfg.ord repo D) T es A ∧ chainDist Dist.zero es = d ∧ chainRate 1 es = r) ∧
+    (∀ es, IsChain (edgesAt cfg.ord repo D) T es A → d ≤ chainDist Dist.zero es) := by
+  refine ⟨C09_sound cfg repo T D tbl h A d r hg, ?_⟩
+  intro es hc
+  obtain ⟨d', r', hg', hle⟩ := (C09_optimal cfg repo T D tbl h A hA).1 es hc
+  rw [hg] at hg'; cases hg'; exact hle
+
+/-- Conversion of `v A` into `T ≠ A` fails exactly when no chain exists, and otherwise multiplies by the tabled
+rate. -/
+theorem C09_fail_iff (cfg : Cfg κ) (repo : Builder κ) (T : κ) (D : Date) (tbl : Table κ)
+    (h : priceTable cfg repo T D = .ok tbl) (v : Rat) (A : κ) (hA : A ≠ T) :
+    (convertSingle cfg repo ⟨v, A⟩ T D = .err (.rateNotFound ⟨v, A⟩ T D) ↔
+        ¬ ∃ es, IsChain (edgesAt cfg.ord repo D) T es A) ∧
+    (∀ d r, AMap.get? tbl A = some (d, r) → convertSingle cfg repo ⟨v, A⟩ T D = .ok ⟨v * r, T⟩) := by
+  have hopt := (C09_optimal cfg repo T D tbl h A hA).2
+  constructor
+  · rw [← hopt]
+    unfold convertSingle
+    simp only [hA, if_false, h]
+    cases hg : AMap.get? tbl A with
+    | none => simp
+    | some x => obtain ⟨d, r⟩ := x; simp
+  · intro d r hg
+    unfold convertSingle
+    simp [hA, h, hg]
+
+/-- Direct pair: if the pair (T, A) has an as-of record, the table holds A with a distance no worse than the
+one-step chain (special case of `C09_optimal`). -/
+theorem C09_direct (cfg : Cfg κ) (repo : Builder κ) (T : κ) (D : Date) (tbl : Table κ)
+    (h : priceTable cfg repo T D = .ok tbl) (e : Edge κ) (he : e ∈ edgesAt cfg.ord repo D T) (hA : e.to ≠ T) :
+    ∃ d r, AMap.get? tbl e.to = some (d, r) ∧ d ≤ Dist.zero.extend e.source e.stale :=
+  (C09_optimal cfg repo T D tbl h e.to hA).1 [e] ⟨he, rfl⟩
+
+/-- Two hops (special case of `C09_optimal`). -/
+theorem C09_two_hop (cfg : Cfg κ) (repo : Builder κ) (T : κ) (D : Date) (tbl : Table κ)
+    (h : priceTable cfg repo T D = .ok tbl) (e1 e2 : Edge κ) (h1 : e1 ∈ edgesAt cfg.ord repo D T)
+    (h2 : e2 ∈ edgesAt cfg.ord repo D e1.to) (hA : e2.to ≠ T) :
+    ∃ d r, AMap.get? tbl e2.to = some (d, r) ∧
+      d ≤ (Dist.zero.extend e1.source e1.stale).extend e2.source e2.stale :=
+  (C09_optimal cfg repo T D tbl h e2.to hA).1 [e1, e2] ⟨h1, h2, rfl⟩
+
+theorem IsChain.mono {out out' : κ → List (Edge κ)} (hsub : ∀ j e, e ∈ out j → e ∈ out' j) :
+    ∀ (es : List (Edge κ)) (a b : κ), IsChain out a es b → IsChain out' a es b := by
+  intro es
+  induction es with
+  | nil => intro a b h; exact h
+  | cons e es ih => intro a b h; exact ⟨hsub _ _ h.1, ih _ _ h.2⟩
+
+theorem edgesAt_congr {ord ord' : κ → List (κ × PEntry) → List (κ × PEntry)} (h : OrdValid ord) (h' : OrdValid ord')
+    (repo : Builder κ) (D : Date) (j : κ) (e : Edge κ) (he : e ∈ edgesAt ord repo D j) : e ∈ edgesAt ord' repo D j := by
+  rw [mem_edgesAt] at he ⊢
+  obtain ⟨inner, entry, d, h1, h2, h3⟩ := he
+  exact ⟨inner, entry, d, h1, (h' _ _ _).2 ((h _ _ _).1 h2), h3⟩
+
+/-- The distance found does not depend on the pop order, the neighbour order or the fuel (as long as the run
+terminates): two runs agree on which commodities are convertible and on every distance.  (The *rate* may differ
+between equally good chains; see `C09_tie_witness`.) -/
+theorem C09_order_independent_distance (cfg cfg' : Cfg κ) (hv : OrdValid cfg.ord) (hv' : OrdValid cfg'.ord)
+    (repo : Builder κ) (T : κ) (D : Date) (tbl tbl' : Table κ)
+    (h : priceTable cfg repo T D = .ok tbl) (h' : priceTable cfg' repo T D = .ok tbl') (A : κ) (hA : A ≠ T) :
+    (AMap.get? tbl A).map (·.1) = (AMap.get? tbl' A).map (·.1) := by
+  have key : ∀ (c c' : Cfg κ) (t t' : Table κ), OrdValid c.ord → OrdValid c'.ord →
+      priceTable c repo T D = .ok t → priceTable c' repo T D = .ok t' →
+      ∀ d r, AMap.get? t A = some (d, r) → ∃ d' r', AMap.get? t' A = some (d', r') ∧ d' ≤ d := by
+    intro c c' t t' hc hc' ht ht' d r hg
+    obtain ⟨es, hch, hd, _⟩ := C09_sound c repo T D t ht A d r hg
+    have hch' := IsChain.mono (fun j e => edgesAt_congr hc hc' repo D j e) es T A hch
+    obtain ⟨d', r', hg', hle⟩ := (C09_optimal c' repo T D t' ht' A hA).1 es hch'
+    exact ⟨d', r', hg', hd ▸ hle⟩
+  cases hg : AMap.get? tbl A with
+  | none =>
+    cases hg' : AMap.get? tbl' A with
+    | none => rfl
+    | some x =>
+      obtain ⟨d, r⟩ := x
+      obtain ⟨_, _, h1, _⟩ := key cfg' cfg tbl' tbl hv' hv h' h d r hg'
+      rw [hg] at h1; cases h1
+  | some x =>
+    obtain ⟨d, r⟩ := x
+    obtain ⟨d', r', hg', hle⟩ := key cfg cfg' tbl tbl' hv hv' h h' d r hg
+    obtain ⟨d'', r'', hg'', hle'⟩ := key cfg' cfg tbl' tbl hv' hv h' h d' r' hg'
+    rw [hg] at hg''; cases hg''
+    simp [hg', Dist.le_antisymm hle hle']
+
+/-! ## the cache -/
+
+/-- every cached table is what `compute_price_table` returns for its key. -/
+def CacheOK (cfg : Cfg κ) (repo : Builder κ) (cache : Cache κ) : Prop :=
+  ∀ T D tbl, AMap.get? cache (T, D) = some tbl → priceTable cfg repo T D = .ok tbl
+
+/-- The `(commodity_with, date)` cache is a memo table: answers are those of the uncached function and the cache
+stays coherent (the empty cache is). -/
+theorem C09_cache_transparent (cfg : Cfg κ) (repo : Builder κ) (cache : Cache κ) (hc : CacheOK cfg repo cache)
+    (v : SingleAmount κ) (T : κ) (D : Date) :
+    (convertSingleCached cfg repo cache v T D).1 = convertSingle cfg repo v T D ∧
+    CacheOK cfg repo (convertSingleCached cfg repo cache v T D).2 := by
+  unfold convertSingleCached convertSingle
+  by_cases hv : v.commodity = T
+  · simp [hv, hc]
+  · simp only [hv, if_false]
+    cases hg : AMap.get? cache (T, D) with
+    | some tbl =>
+      have := hc T D tbl hg
+      simp only [this]
+      cases AMap.get? tbl v.commodity with
+      | none => exact ⟨rfl, hc⟩
+      | some x => exact ⟨rfl, hc⟩
+    | none =>
+      cases hp : priceTable cfg repo T D with
+      | ok tbl =>
+        have hc' : CacheOK cfg repo (AMap.insert cache (T, D) tbl) := by
+          intro T' D' tbl' hg'
+          by_cases hk : (T, D) = (T', D')
+          · cases hk; rw [AMap.get?_insert_self] at hg'; cases hg'; exact hp
+          · rw [AMap.get?_insert_ne _ _ hk] at hg'; exact hc T' D' tbl' hg'
+        simp only
+        cases AMap.get? tbl v.commodity with
+        | none => exact ⟨rfl, hc'⟩
+        | some x => exact ⟨rfl, hc'⟩
+      | err e => exact ⟨rfl, hc⟩
+      | panic s => exact ⟨rfl, hc⟩
+      | fuelOut => exact ⟨rfl, hc⟩
+
+
+/-! ## termination -/
+
+/-- Full statement: there is a fuel bound, computed from the repository alone, within which the table computation
+ends for every pop order and every neighbour order.  (The loop pops one element per iteration; an element is
+pushed only when a label strictly improves.) -/
+def C09_terminates_statement (κ : Type) [DecidableEq κ] : Prop :=
+  ∃ bound : Builder κ → Nat, ∀ (cfg : Cfg κ) (repo : Builder κ) (T : κ) (D : Date),
+    bound repo ≤ cfg.fuel → ∃ tbl, priceTable cfg repo T D = .ok tbl
+
+/-- What is proved of it here: a run that has fuel left never stops early with a wrong answer — it either ends
+with the (sound, optimal) table or reports `fuelOut`; it never panics and never returns an error. -/
+theorem C09_terminates_partial (cfg : Cfg κ) (repo : Builder κ) (T : κ) (D : Date) :
+    (∃ tbl, priceTable cfg repo T D = .ok tbl) ∨ priceTable cfg repo T D = .fuelOut := by
+  unfold priceTable tableOf
+  generalize ([] : Table κ) = t
+  generalize [(⟨Dist.zero, T, 1⟩ : Item κ)] = q
+  induction cfg.fuel generalizing t q with
+  | zero =>
+    cases q with
+    | nil => left; exact ⟨t, by simp [loop]⟩
+    | cons x xs => right; simp [loop]
+  | succ n ih =>
+    cases q with
+    | nil => left; exact ⟨t, by simp [loop]⟩
+    | cons x xs =>
+      simp only [loop]
+      split
+      · exact ih _ _
+      · exact ih _ _
+
+/-! ## non-vacuity and witnesses (commodities are numbers here: 0 = target) -/
+section Examples
+
+private def day (n : Nat) : Date := ⟨2024, 1, n⟩
+private def cfgFifo : Cfg Nat := ⟨64, fun _ _ => 0, fun _ l => l⟩
+private def cfgLifoRev : Cfg Nat := ⟨64, fun _ q => q.length - 1, fun _ l => l.reverse⟩
+private def cfgFifoRev : Cfg Nat := ⟨64, fun _ _ => 0, fun _ l => l.reverse⟩
+
+/-- ledger: 1 c1 = 2 c0 on day 5; 10 c1 = 30 c0 on day 9.  price db: 1 c2 = 4 c1 on day 7. -/
+private def repo1 : Builder Nat :=
+  match buildFrom [⟨day 5, ⟨1, 1⟩, ⟨2, 0⟩⟩, ⟨day 9, ⟨10, 1⟩, ⟨30, 0⟩⟩] [⟨day 7, ⟨1, 2⟩, ⟨4, 1⟩⟩] with
+  | .ok b => build b
+  | _ => []
+
+-- on the price's own date the price is used; the day before it is not there yet
+example : convertSingle cfgFifo repo1 ⟨1, 1⟩ 0 (day 5) = .ok ⟨2, 0⟩ := by decide +kernel
+example : convertSingle cfgFifo repo1 ⟨1, 1⟩ 0 (day 4) = .err (.rateNotFound ⟨1, 1⟩ 0 (day 4)) := by decide +kernel
+-- reciprocal direction
+example : convertSingle cfgFifo repo1 ⟨1, 0⟩ 1 (day 6) = .ok ⟨1/2, 1⟩ := by decide +kernel
+-- two hops through the price db; the most recent ledger price (day 9: 3) is used once it exists
+example : convertSingle cfgFifo repo1 ⟨1, 2⟩ 0 (day 8) = .ok ⟨8, 0⟩ := by decide +kernel
+example : convertSingle cfgFifo repo1 ⟨1, 2⟩ 0 (day 9) = .ok ⟨12, 0⟩ := by decide +kernel
+example : convertSingle cfgLifoRev repo1 ⟨1, 2⟩ 0 (day 9) = .ok ⟨12, 0⟩ := by decide +kernel
+example : (match priceTable cfgFifo repo1 0 (day 9) with | .ok tbl => AMap.get? tbl 2 | _ => none)
+    = some (⟨1, 2, 2⟩, 12) := by decide +kernel
+
+/-- price db replaces the ledger price of the same pair: ledger says 1 c1 = 2 c0 (day 5), db says 1 c1 = 5 c0 (day 3). -/
+private def repo2 : Builder Nat :=
+  match buildFrom [⟨day 5, ⟨1, 1⟩, ⟨2, 0⟩⟩] [⟨day 3, ⟨1, 1⟩, ⟨5, 0⟩⟩] with
+  | .ok b => build b
+  | _ => []
+example : convertSingle cfgFifo repo2 ⟨1, 1⟩ 0 (day 6) = .ok ⟨5, 0⟩ := by decide +kernel
+example : contrib [(⟨day 3, ⟨1, 1⟩, ⟨5, 0⟩⟩ : PriceEvent Nat)] 0 1 = [(day 3, 5)] := by decide +kernel
+
+/-- Two equally good chains 3→1→0 and 3→2→0 (all price db, all on day 1) with products 2 and 4. -/
+private def repoTie : Builder Nat :=
+  match buildFrom [] [⟨day 1, ⟨1, 1⟩, ⟨2, 0⟩⟩, ⟨day 1, ⟨1, 2⟩, ⟨4, 0⟩⟩, ⟨day 1, ⟨1, 3⟩, ⟨1, 1⟩⟩, ⟨day 1, ⟨1, 3⟩, ⟨1, 2⟩⟩] with
+  | .ok b => build b
+  | _ => []
+
+/-- The *rate* (not the distance) depends on the visiting order when equally good chains disagree: this is why
+the property accepts any best chain, and why the Rust now visits neighbours in commodity order (b2e85da). -/
+theorem C09_tie_witness :
+    convertSingle cfgFifo repoTie ⟨1, 3⟩ 0 (day 1) = .ok ⟨2, 0⟩ ∧
+    convertSingle cfgFifoRev repoTie ⟨1, 3⟩ 0 (day 1) = .ok ⟨4, 0⟩ :=
+  ⟨by decide +kernel, by decide +kernel⟩
+
+example : Sorted (entryOf repo1 0 1).recs := C09_build_sorted _ 0 1
+example : asOf [(day 5, 2), (day 9, 3)] (day 8) = some (day 5, 2) := by decide +kernel
+example : asOf [(day 5, 2), (day 5, 3), (day 9, 1)] (day 5) = some (day 5, 3) := by decide +kernel
+example : OrdValid (fun (_ : Nat) l => l.reverse) := fun _ _ _ => List.mem_reverse
+
+end Examples
+
+end Okane.Price
